@@ -92,7 +92,14 @@ class Identifier(NixExpression):
                 f"Cannot resolve identifier without scope context: {self.name}"
             )
 
-        _resolved, binding = _resolve_identifier(self, context.scopes)
+        try:
+            _resolved, binding = _resolve_identifier(self, context.scopes)
+        except ResolutionError as exc:
+            # The chain ends in a name without definition: the last link that
+            # could be followed is the definition to replace.
+            if not isinstance(exc.last_binding, Binding):
+                raise
+            binding = exc.last_binding
         if not isinstance(new_value, NixExpression):
             new_expr = coerce_expression(new_value)
         else:
@@ -108,6 +115,13 @@ class Identifier(NixExpression):
         binding.value = new_expr
         if isinstance(new_expr, NixExpression):
             set_resolution_context(new_expr, context.scopes)
+
+
+def _unbound(message: str) -> ResolutionError:
+    """A ResolutionError for a name that has no definition to resolve to."""
+    error = ResolutionError(message)
+    error.unbound = True
+    return error
 
 
 def _resolve_identifier(
@@ -138,7 +152,14 @@ def _resolve_identifier(
 
         set_resolution_context(value, scope_chain)
         if isinstance(value, Identifier):
-            return _resolve_identifier(value, scope_chain, visited, inherit_visited)
+            try:
+                return _resolve_identifier(
+                    value, scope_chain, visited, inherit_visited
+                )
+            except ResolutionError as exc:
+                if exc.unbound and exc.last_binding is None:
+                    exc.last_binding = binding
+                raise
         return value, binding
 
     def _inherit_matches(target: str, inherit_expr: Any) -> bool:
@@ -171,7 +192,7 @@ def _resolve_identifier(
         from_expression = getattr(inherit_expr, "from_expression", None)
         if from_expression is None:
             if not outer_chain:
-                raise ResolutionError(f"Unbound identifier: {identifier.name}")
+                raise _unbound(f"Unbound identifier: {identifier.name}")
             return _resolve_identifier(
                 identifier,
                 outer_chain,
@@ -225,7 +246,7 @@ def _resolve_identifier(
             else ()
         )
         if identifier.name in scope.parameters:
-            raise ResolutionError(
+            raise _unbound(
                 f"{identifier.name} is a function parameter without a known value"
             )
         # The value of a plain set's attribute does not see its siblings.
@@ -252,7 +273,7 @@ def _resolve_identifier(
                 continue
             return _resolve_inherited_binding(entry, scope_chain, outer_chain)
 
-    raise ResolutionError(f"Unbound identifier: {identifier.name}")
+    raise _unbound(f"Unbound identifier: {identifier.name}")
 
 
 __all__ = ["Identifier"]
